@@ -190,7 +190,7 @@ def run(ctx):
             docs.append(("probe", mappyfile.loads(t, include_position=rng.random() < 0.5), "map", []))
         except Exception:  # noqa
             pass
-    n_valid = ctx.budget(50, 1500)
+    n_valid = ctx.budget(50, 800)
     for i in range(n_valid):
         try:
             docs.append(("valid", gen.document(), "map", []))
@@ -202,7 +202,7 @@ def run(ctx):
                 docs.append(("valid-root", gen.value(raw[t + ".json"], 2), t, []))
             except vg.GenFail:
                 pass
-    n_fault = ctx.budget(220, 6000)
+    n_fault = ctx.budget(220, 3000)
     for i in range(n_fault):
         try:
             d = gen.document()
@@ -311,6 +311,7 @@ def run(ctx):
     # list = pointwise
     ok_docs = [(d, nm, r) for (lab, d, nm, fs), (r, rec) in zip(docs, real) if r[0] == "ok" and nm == "map"]
     n_list = 0
+    list_cases = []
     for _ in range(ctx.budget(40, 600)):
         if len(ok_docs) < 3:
             break
@@ -318,9 +319,19 @@ def run(ctx):
         got = vc.canon_msgs(vc.real_validate([copy.deepcopy(d) for d, _, _ in pick], "map", None, validator=val))
         want = ("ok", [m for _, _, r in pick for m in r[1]])
         n_list += 1
+        list_cases.append(([d for d, _, _ in pick], got))
         if got != want:
             ctx.violation("list:not-pointwise", "validate(list) differs from the concatenation of validate(d) over its members",
                           {"kind": "list", "docs": [json.loads(json.dumps(d)) for d, _, _ in pick]})
+    if ctx.model_ok and list_cases:
+        louts = vc.model_validate([(ds, "map", None) for ds, _ in list_cases])
+        lbad = 0
+        for (ds, got), m in zip(list_cases, louts):
+            if got != vc.canon_msgs(m):
+                lbad += 1
+                ctx.violation("correspondence:O-val-list", "model and real validate(list of %d dictionaries) disagree: real %s model %s" % (len(ds), str(got)[:200], str(m)[:200]),
+                              {"kind": "list", "docs": [json.loads(json.dumps(d)) for d in ds]}, no_input=True)
+        ctx.obligation("correspondence O-val on lists of root dictionaries", lbad == 0, "%d lists" % len(list_cases))
     ctx.count("list_cases", n_list)
     ctx.count("documents", len(docs))
     ctx.count("documents_raising", n_raise)
